@@ -54,9 +54,9 @@ Proof. exact checked_run_sound. Qed.
 (* [B] Bounded theorem: for ALL instances of three explicit finite domains
    (segment [0,e) with e <= maxlen, at most maxn cells of widths 1..maxw that
    fit, targets in [-win, e+win]) the algorithm itself is optimal and its
-   costs sum to the minimum.  The unbounded statement (same conclusion for
-   every history that fits) is NOT proved: it needs the cascading-descent
-   optimality argument; see DESIGN.md, C12. *)
+   costs sum to the minimum.  Kept as a cross-check by computation; it is superseded
+   by the UNBOUNDED theorems c12_optimal_unbounded and c12_costs_sum_to_minimum_unbounded
+   below (RowLegOptProofs.v: value-function invariant of the cascading descent). *)
 Theorem c12_optimal_bounded :
   forall maxlen maxn maxw win,
   In (maxlen, maxn, maxw, win) [(6, 3%nat, 2, 3); (4, 4%nat, 2, 1); (5, 3%nat, 3, 2)] ->
@@ -89,3 +89,57 @@ Print Assumptions c12_query_pure.
 Print Assumptions c12_certificate_sound.
 Print Assumptions c12_checked_run_optimal.
 Print Assumptions c12_optimal_bounded.
+
+(* ------------------------------------------------------------------ *)
+(* Unbounded optimality of the raw algorithm (RowLegOptProofs.v).  These two
+   theorems supersede the remark in front of c12_optimal_bounded: the
+   cascading-descent argument is now proved for every segment and every
+   history that fits (pushes interleaved with queries, any integer targets). *)
+Require Import CV.RowLegOptProofs.
+
+(* [F] (A) For every segment [b,e) and every history of insertions that fit
+   (width > 0, width <= remaining space), the positions returned by
+   getPlacement() are a legal placement (legal_from: insertion order kept, no
+   overlap, inside the segment) and minimise the width-weighted displacement
+   cost_of = sum_i w_i * |x_i - t_i| among ALL legal placements of the same
+   cells. *)
+Theorem c12_optimal_unbounded :
+  forall b e ops, b <= e -> fits (rl_init b e) ops ->
+  let pl := fst (run b e ops) in
+  let cs := mk_cells (push_list ops) pl in
+  length pl = length (push_list ops) /\
+  legal_from b e cs pl /\
+  (forall zs, legal_from b e cs zs -> cost_of cs pl <= cost_of cs zs).
+Proof. exact rowleg_placement_optimal. Qed.
+
+(* [F] (B) Under the same hypotheses the costs returned by the pushes (queries
+   excluded) sum exactly to the cost of the returned placement, i.e. to the
+   minimum over all legal placements. *)
+Theorem c12_costs_sum_to_minimum_unbounded :
+  forall b e ops, b <= e -> fits (rl_init b e) ops ->
+  let pl := fst (run b e ops) in
+  let costs := snd (run b e ops) in
+  let cs := mk_cells (push_list ops) pl in
+  push_cost_sum ops costs = cost_of cs pl /\
+  (forall zs, legal_from b e cs zs -> push_cost_sum ops costs <= cost_of cs zs).
+Proof. exact rowleg_costs_sum_to_minimum. Qed.
+
+(* non-vacuity: a fitting history whose first cell is clamped by the right
+   limit (target 5, segment [0,6), width 2), with a query and cells pushed
+   left; the set of legal competitors is not a singleton ([0;2;3] is legal and
+   strictly worse) and the reported costs sum to the optimum 14 *)
+Example c12_unbounded_nonvacuous :
+  let ops := [Push 2 5; Query 1 (-3); Push 1 (-3); Push 2 4] in
+  let cs := mk_cells (push_list ops) (fst (run 0 6 ops)) in
+  0 <= 6 /\ fits (rl_init 0 6) ops /\
+  run 0 6 ops = ([1; 3; 4], [2; 10; 10; 2]) /\
+  legal_from 0 6 cs [0; 2; 3] /\ cost_of cs [0; 2; 3] = 17 /\
+  cost_of cs (fst (run 0 6 ops)) = 14 /\ push_cost_sum ops (snd (run 0 6 ops)) = 14.
+Proof.
+  cbv zeta. split; [lia|]. split; [vm_compute; intuition discriminate|].
+  split; [vm_compute; reflexivity|]. split; [vm_compute; intuition discriminate|].
+  split; [vm_compute; reflexivity|]. split; vm_compute; reflexivity.
+Qed.
+
+Print Assumptions c12_optimal_unbounded.
+Print Assumptions c12_costs_sum_to_minimum_unbounded.
